@@ -13,6 +13,10 @@ TEXT = {
          "Every operation history over {encode(letter), decode(matching model)} up to the stated depth, from the empty coder and from 50+ imported word strings, executed on the real AnsCoder for the whole (Word,State) matrix (deep on 8-bit words); re-import, clone and batch/reverse/fallible forms compared at every node; plus a single-step induction (decode(encode(s)) = s and encode(decode(s)) = s) over ALL 2^16 head values of AnsCoder<u8,u16>. Bounded-exhaustive coverage is the right level for an arithmetic state machine whose rare events (flush/refill thresholds) become frequent at 8-bit words.", TRUST, "§3 C01"),
  "C02": ("exhaustive symbol-sequence DFS on the real RangeEncoder/RangeDecoder, every node sealed and decoded",
          "All symbol sequences over mixed-precision alphabets up to the stated depth on 8-bit words with 16/32/64-bit state (where carries and inverted situations occur within depth 6) and shallower on wide types; at every node the stream is sealed and fully decoded through two decoder constructions, clear() is compared with new(). Event counters prove inverted situations, both carry resolutions and two-word seals were explored; a run without them exits 2.", TRUST, "§3 C02"),
+ "C03": ("exhaustive input sweep in isolated child processes: every float / fixed-point table, quantised distribution and uniform range of the stated spaces; validity + exact-invertibility oracle over all quantiles",
+         "Every float table of length <= 3 (thorough 4) over 18 boundary floats (denormals, tails below resolution, 2^24/2^53, 1e+-300) as f32 and f64 at 12 (Probability,PRECISION) configurations through the fast, lazy, perfect, lookup and non-contiguous constructors; all u8 fixed-point tables of length <= 2 (3) at 5 precisions; 6 distribution families x 13 locations x 9 scales x 4 inverse hints x supports on 9 (Symbol,Probability,PRECISION) configurations; uniform ranges. Oracle: consecutive non-empty intervals tiling [0,2^P), nothing outside the support, no probability one, and quantile_function == left_cumulative_and_probability on ALL quantiles for P <= 12 (boundary quantiles + stride above). Aborts and hangs of a case are caught by process isolation with a watchdog and judged.", TRUST + " Float parameter space is a grid (the quantile and symbol dimensions are exhaustive); the probability crate's cdf/inverse are black boxes.", "§3 C03"),
+ "C05": ("exhaustive input sweep (same spaces as C03); every representation reachable from a model tabulated and compared row by row",
+         "For every model of the C03 sweep: direct queries vs symbol_table vs as_view vs to_generic_encoder/decoder/lookup_decoder_model vs to_lookup_decoder_model vs as_contiguous_categorical; eager vs lazy with the same-named constructor; lookup vs searched; contiguous vs non-contiguous with identity relabelling; encoder hash table vs decoder table.", TRUST, "§3 C05"),
  "C04": ("exhaustive input sweep: all word strings x all model sequences on the real AnsCoder, both raw-binary accessors",
          "Every u8 word string of length <= 2 (thorough: 3) and longer strings over boundary words, for 7 (Word,State) instantiations; from_binary, decode with every model sequence over 15 models up to length 3-4, re-encode in reverse, compare into_binary AND get_binary AND num_valid_bits AND the raw coder state with the original.", TRUST, "§3 C04"),
  "C06": ("differential exhaustive walk: real coders vs independent textbook rANS / carry-propagating range coder at every node; documentation vectors",
@@ -33,6 +37,8 @@ TEXT = {
          "All weight vectors of length <= 6-10 over small weight alphabets as u32/f64/f32, plus special vectors; prefix-freeness, Kraft equality, optimal cost (brute force over all full binary trees for n <= 6), exact tie-breaking, prefix == reversed suffix, decode, rejection of out-of-alphabet symbols, encoder/decoder agreement.", TRUST, "§3 C15"),
  "C16": ("explicit-state BFS of the real StackCoder to a fixed point; exhaustive bit strings on the queue coder; exhaustive Exp-Golomb values",
          "All reachable states of StackCoder<u8/u16/u32> with up to 13-18 content bits under {write 0/1, read, export->re-import, inspect}, canonical key = full Debug representation + reference content, until the frontier empties; every bit string through QueueEncoder/QueueDecoder; every u8 pair and u16 value (boundary values of u32/u64) through Exp-Golomb on both coders; symbol codes interleaved with raw bits.", TRUST, "§3 C16"),
+ "C19": ("exhaustive input sweep in isolated child processes over invalid and valid constructor inputs; outcome classification (Err / clean panic / valid model / invalid model / overflow / abort / hang)",
+         "Every float table of length <= 2 (thorough 3) over 25 letters incl. -0.0, negative, NaN, +-inf entries x 7 normalization variants (none, exact, half, double, 0, NaN, negative); ALL u8 fixed-point tables of length <= 2 (thorough: 3) x infer_last x symbol lists of matching / shorter / longer length / with duplicates, at 5 precisions incl. PRECISION == Probability::BITS; u16 boundary tables; every support size 0..=2^P+2 for P <= 8 and sizes aliasing modulo 2^ProbabilityBits on 9 type combinations; uniform ranges incl. aliasing ones. Completeness: every table that denotes a valid model must be accepted (also with infer_last at full precision).", TRUST, "§3 C19"),
  "C17": ("explicit-state BFS over (buffer, position) with full dedup to a fixed point on 4 cursor kinds; exhaustive op sequences on Vec/SmallVec",
          "Every reachable (buffer contents, position) state with buffer length <= 5 (thorough 7): each op executed on Cursor<Vec>, Cursor<&mut [W]>, Cursor<&[W]>, Reverse<Cursor> and the reference; reported remaining/space_left compared with the number of operations that actually succeed; fused end; into_reversed as a bisimulation; views/clones; Vec/SmallVec/iterator/callback adapters.", TRUST, "§3 C17"),
 }
